@@ -39,7 +39,7 @@ def e1(ctx, case, root, entry="cli", ub=False):
     has been materialised under root"""
     inc = " ".join(case.get("incdirs", []))
     impl = ctx.probe.ask(f"facts {entry} {1 if ub else 0} {root} {case['main']} {inc}".strip())
-    model = ctx.driver.ask(f"facts {entry} " + idl.case_tokens(case))
+    model = ctx.driver.ask(f"facts {entry + ('-ub' if ub and entry == 'cli' else '')} " + idl.case_tokens(case))
     return C.canon_facts(model), C.canon_facts(impl)
 
 
